@@ -10,7 +10,7 @@ from .model import load_model, AnalysisError
 from .harness import (build, make_point, exc_name, exc_origin, run_paths, partition, valuations,
                       describe_val, leaf_value)
 from .values import SymNum, ComplexVal, Obj
-from .regions import IV
+from .regions import IV, samples_in
 from . import spec
 from .algebra import compare_terms
 
@@ -143,6 +143,10 @@ def depth2_instances(model, tier: str):
     return out
 
 
+def region_env(val: dict) -> dict:
+    return {k: samples_in(iv) for k, iv in val.items() if not iv.is_point()}
+
+
 def eval_case(args):
     """Worker: returns a list of result dicts for one (tree, val) case."""
     tree, val, api = args
@@ -153,7 +157,7 @@ def eval_case(args):
         return [{"status": "skip", "reason": str(e)}]
 
     def thunk(it):
-        e = build(it, tree)
+        e = build(it, tree, {})
         p = make_point(it, val)
         if api == "number":
             (name,) = list(val) or ["x"]
@@ -187,7 +191,7 @@ def eval_case(args):
                 got_term = SymNum.of(v).term
                 want = spec.value_term(tree, spec.leaf_terms(val))
                 signs = spec.signs_from_valuation({k: iv for k, iv in val.items() if not iv.is_point()})
-                verdict, wit = compare_terms(got_term, want, signs)
+                verdict, wit = compare_terms(got_term, want, signs, region_env=region_env(val))
                 r["got"] = repr(v)
                 if verdict == "equal":
                     r["status"] = "ok"
